@@ -528,6 +528,8 @@ func filterObs(obs []Ob, rulePrefix string) []Ob {
 }
 
 var c15Canaries = []Canary{
+	{Name: "r5-tus-loses-retry-after", ExpectKey: "C15.R4#retry-later-survives", Edits: []Edit{{File: "tq/tus_upload.go", Find: "\tres, err = a.doHTTP(t, req)\n\tif err != nil {\n\t\tif res != nil && res.StatusCode == 429 {", Repl: "\tres, err = a.doHTTP(t, req)\n\tif err != nil {\n\t\tif res != nil && res.StatusCode == 429 && offset < 0 {"}}},
+	{Name: "r5-zero-delay-replaced", ExpectKey: "C15.R4#max-retry-delay:zero-is-kept", Edits: []Edit{{File: "tq/manifest.go", Find: "\tif m.maxRetryDelay < 0 {", Repl: "\tif m.maxRetryDelay < 1 {"}}},
 	{Name: "r4-longest-wait", ExpectKey: "C15.R4#Concat:wait-is-the-smallest", Edits: []Edit{{File: "tq/transfer_queue.go", Find: "} else if wait < minWait {", Repl: "} else if wait > minWait {"}}},
 	{Name: "off-by-one-budget", ExpectKey: "C15.R2#CanRetry", Edits: []Edit{{File: "tq/transfer_queue.go", Find: "	return count, count < r.MaxRetries", Repl: "	return count, count <= r.MaxRetries"}}},
 	{Name: "append-outside-closure", ExpectKey: "C15.R1#retry-batch-append", Edits: []Edit{{File: "tq/transfer_queue.go", Find: "				} else {\n					q.errorc <- errors.Errorf(\"[%v] %v\", tr.Name, err)", Repl: "				} else if len(batch) == 1 {\n					next = append(next, objects.First())\n				} else {\n					q.errorc <- errors.Errorf(\"[%v] %v\", tr.Name, err)"}}},
